@@ -807,7 +807,9 @@ def run_struct(ctx, out, prop, cfg, hooks_factory, n_quick, n_thorough, rule, op
                                          "and sampled pairs, each followed by evaluating everything" % (len(motifs_for(cfg)) - 1)
                                          + ("; extended families: every single edit after the extended motifs; (clearing edit of "
                                             "one cells, edit of an existing reference) pairs; (reference edit, value assignment, "
-                                            "reference edit) triples; cache-flag switch then reference edit" if cfg.get("ext") else "")
+                                            "reference edit) triples; cache-flag switch then reference edit; (input assigned, the cells redefined / "
+                                            "renamed / flag switched off and on / re-derived, everything evaluated, edit of a "
+                                            "reference visible in its space)" if cfg.get("ext") else "")
                                          if enumerate_single else ""),
                          "samples": samples, "input_distribution": dict(stats),
                          "corpus_cases": len(cases) - n, "traces_validated_against_impl": len(cases)})
@@ -920,16 +922,22 @@ MOTIFS_EXT = [
     [["new_space", "-", "D", []], ["new_space", "D", "X", []], ["set_ref", "D.X", "t", 1], ["set_ref", "D.X", "s", 2],
      ["new_cells", "D", "f", F(3, 1, "f", "t", "X")], ["new_cells", "D", "g", F(11, 1, "f", "s", "X")],
      ["new_cells", "D", "h", F(3, 2, "h", "t", "X")], ["new_cells", "D", "k", F(12, 1, "h", "u")]],
-    # a caller in one space, through a cells of ANOTHER space that reads a reference of its own space by
-    # name; a second caller elsewhere reaches the same cells through an object-valued reference
+    # a caller in one space, through cells of ANOTHER space that read a reference of their own space by
+    # name; a second caller elsewhere reaches the reader through an object-valued reference.  With failing
+    # evaluations in the middle of the chains: g reads the reference by name and is PARTIAL (fails for the
+    # argument 2); h (same space) calls g; f (parent space) calls h through a path; k CATCHES the failure of
+    # f; the caller in B reaches g directly.  Whatever is uncached, the values computed through it for the
+    # arguments 0 and 1 precede a rolled-back evaluation through it
     [["new_space", "-", "C", []], ["new_space", "C", "X", []], ["set_ref", "C.X", "s", 2],
-     ["new_cells", "C.X", "g", F(2, 1, "g", "s")], ["new_cells", "C", "f", F(4, 1, "g", "r", "X")],
+     ["new_cells", "C.X", "g", F(14, 2, "g", "s")], ["new_cells", "C.X", "h", F(1, 1, "g")],
+     ["new_cells", "C", "f", F(4, 1, "h", "r", "X")], ["new_cells", "C", "k", F(8, 3, "f")],
      ["new_space", "-", "B", []], ["set_ref", "B", "t", ["obj", "C.X.g"], "absolute"],
-     ["new_cells", "B", "h", F(9, 1, "h", "t")]],
+     ["new_cells", "B", "f", F(9, 1, "f", "t")]],
     # the same shape with the middle cells uncached from the start (no other cells of its space is a
     # precedent of the callers), and a chain above the caller
+    # (the middle cells is PARTIAL: its evaluation fails for the argument 2, after the successful ones)
     [["new_space", "-", "C", []], ["new_space", "C", "X", []], ["set_ref", "C.X", "s", 2],
-     ["new_cells", "C.X", "g", F(2, 1, "g", "s")], ["set_cached", "C.X", "g", 0],
+     ["new_cells", "C.X", "g", F(14, 2, "g", "s")], ["set_cached", "C.X", "g", 0],
      ["new_cells", "C", "f", F(4, 1, "g", "r", "X")], ["new_cells", "C", "h", F(1, 2, "f")],
      ["new_space", "-", "B", []], ["set_ref", "B", "t", ["obj", "C.X.g"], "absolute"],
      ["new_cells", "B", "k", F(9, 1, "k", "t")]],
@@ -1083,6 +1091,53 @@ def ext_sequences(live, edits, rng, exhaustive, thorough=False, cap_pairs=24, ca
     return pairs + triples
 
 
+def input_sequences(live, edits, rng, thorough=False, cap=10):
+    """the family "an INPUT, then the cells is redefined, evaluated again, then its namespace changes":
+      [assign a value to one element of a cached cells;
+       redefine that cells - a new formula (constant / reading a reference by name), a new name, the cache flag
+       switched off and on again, or (a derived cells) a new formula of the cells it derives from;
+       evaluate everything - the element that held the input now holds an ordinary computed value;
+       edit a reference visible in the cells' space (its own, one it derives, a model-level one, or a new one)]
+    followed, like every sequence, by evaluating everything.  The redefinition discards the input; what is computed at
+    the same argument afterwards must follow the reference edit like any other computed value.
+    Reference edits are *aimed*: those of a name the cells' (new) formula mentions are all used, of the others one
+    (seeded); thorough tier: all.  Quick tier: a seeded sample of `cap` sequences per motif."""
+    import re
+    spaces = W.all_spaces(live.m)
+    seqs = []
+    for path, s in spaces:
+        lin = [W.rel(live.m, b) for b in s.bases]
+        vis = [e for e in edits if (e[0] in ("set_ref", "del_ref") and (e[1] == path or e[1] in lin))
+               or e[0] in ("set_mref", "del_mref")]
+        for cn, c in s.cells.items():
+            if not c.is_cached:
+                continue
+            assign = [e for e in edits if e[0] == "set_value" and e[1:3] == [path, cn]][:1]
+            if not assign:
+                continue
+            redefs = []        # (ops, formula source afterwards)
+            definers = [path] + ([b for b in lin if cn in dict(spaces)[b].cells
+                                  and not dict(spaces)[b].cells[cn]._is_derived()][:1] if c._is_derived() else [])
+            for e in edits:
+                if e[0] == "set_formula" and e[2] == cn and e[1] in definers:
+                    redefs.append(([e], W.formula_src(cn, e[3])))
+            src = c.formula.source if c.formula is not None else ""
+            rn = [e for e in edits if e[0] == "rename_cells" and e[1:3] == [path, cn]][:1]
+            if rn:
+                redefs.append((rn, src))
+            redefs.append(([["set_cached", path, cn, 0], ["set_cached", path, cn, 1]], src))
+            for redef, after in redefs:
+                words = set(re.findall(r"[A-Za-z_]\w*", after or ""))
+                aimed = [e for e in vis if (e[2] if e[0] in ("set_ref", "del_ref") else e[1]) in words]
+                rest = [e for e in vis if e not in aimed]
+                chosen = vis if thorough else aimed + (rng.sample(rest, 1) if rest else [])
+                for d in chosen:
+                    seqs.append(assign + redef + [["evalall"], d])
+    if not thorough:
+        seqs = rng.sample(seqs, min(len(seqs), cap))
+    return seqs
+
+
 def enumerate_edits(ctx, out, prop, hooks_factory, cfg, stats, quick_per_motif=16, pairs_per_motif=6):
     """small-scope exhaustive part: after every motif program (everything evaluated), every
     applicable single edit (quick tier: a seeded sample), followed by evaluating everything
@@ -1116,6 +1171,11 @@ def enumerate_edits(ctx, out, prop, hooks_factory, cfg, stats, quick_per_motif=1
             if ok:
                 extseqs = ext_sequences(live, edits, ctx.rng("enum-ext", prop, mi), exhaustive=is_ext_motif,
                                         thorough=ctx.tier == "thorough") if ext and not variant else []
+                if ext and not variant:
+                    inseqs = input_sequences(live, edits, ctx.rng("enum-input", prop, mi),
+                                             thorough=ctx.tier == "thorough")
+                    stats["enumerated_input_sequences"] += len(inseqs)
+                    extseqs = extseqs + inseqs
                 refed = ref_edits_existing(live, edits) if is_ext_motif else []
         finally:
             live.close()
